@@ -416,8 +416,10 @@ macro_rules! submit_threaded_operation {
             return result_recv;
         }
 
+        let completion_guard = SyncCompletionGuard::new(Box::new(move |res| { result_send.apply(res); }));
+        let handler_guard = completion_guard.clone();
         let response_handler = Box::new(move |res| {
-            result_send.apply(res);
+            handler_guard.complete(res);
             Ok(())
         });
 
@@ -428,6 +430,7 @@ macro_rules! submit_threaded_operation {
 
         let submit_result = $self.operation_sender.send(OperationOptions::$operation_type(boxed_packet, internal_options));
         if let Err(submit_error) = submit_result {
+            completion_guard.disarm();
             late_sender.apply(Err(GneissError::new_operation_channel_failure(submit_error)));
         }
 
@@ -440,8 +443,10 @@ macro_rules! submit_threaded_operation_with_callback {
         let boxed_packet = Box::new(MqttPacket::$packet_type($packet_value));
         validate_packet_outbound(&boxed_packet)?;
 
+        let completion_guard = SyncCompletionGuard::new(Box::new(move |res| { $completion_callback(res); }));
+        let handler_guard = completion_guard.clone();
         let response_handler = Box::new(move |res| {
-            $completion_callback(res);
+            handler_guard.complete(res);
             Ok(())
         });
 
@@ -452,6 +457,7 @@ macro_rules! submit_threaded_operation_with_callback {
 
         let submit_result = $self.operation_sender.send(OperationOptions::$operation_type(boxed_packet, internal_options));
         if let Err(submit_error) = submit_result {
+            completion_guard.disarm();
             return Err(GneissError::new_operation_channel_failure(submit_error));
         }
 
